@@ -390,14 +390,12 @@ impl Axecutor {
         Ok(bytes[0] as u64)
     }
 
-    pub(crate) fn mem_get_area(&self, start_addr: u64) -> Option<MemoryArea> {
-        for area in &self.state.memory {
-            if start_addr == area.start {
-                return Some(area.clone());
-            }
-        }
-
-        None
+    pub(crate) fn mem_get_area(&self, start_addr: u64) -> Option<&MemoryArea> {
+        // Return a reference: cloning would copy the whole (possibly huge) data of the area
+        self.state
+            .memory
+            .iter()
+            .find(|area| start_addr == area.start)
     }
 
     // TODO: Currently cannot write consecutive sections of memory
